@@ -434,7 +434,11 @@ pub async fn step_auth(h: &mut Harness, op: &Op) {
                         let mut got: Vec<String> = list.iter().map(|p| p.name.clone()).collect();
                         got.sort();
                         let want: Vec<String> = u.pats.keys().cloned().collect();
-                        if got != want {
+                        // a token past its expiry is listed until the cleaner or a restart drops it: optional
+                        let now = h.sim.now_micros();
+                        let must: Vec<&String> = u.pats.iter().filter(|(_, p)| p.expiry_at.map(|e| e > now + 1_000_000).unwrap_or(true)).map(|(k, _)| k).collect();
+                        let tolerated = must.iter().all(|k| got.contains(k)) && got.iter().all(|k| want.contains(k));
+                        if got != want && !tolerated {
                             h.violate("C06", "get_equals_model", "pats_listing", format!("tokens of user {uid}: {got:?} vs model {want:?}"));
                         }
                     }
@@ -711,7 +715,13 @@ async fn create_pat(h: &mut Harness, c: usize, name: &str, expiry_micros: u64) {
     let limit = h.world.knobs.borrow().max_tokens_per_user as usize;
     let valid = (3..=30).contains(&name.len());
     let expect_ok = valid && !taken && user.pats.len() < limit;
-    if expect_ok && result.is_err() {
+    // tokens past their expiry may or may not still be held (the cleaner or a restart drops them)
+    let maybe_gone = |p: &MPat| p.expiry_at.map(|e| e <= now_hi + 1_000_000).unwrap_or(false);
+    let live = user.pats.values().filter(|p| !maybe_gone(p)).count();
+    let uncertain = valid && ((taken && maybe_gone(&user.pats[name])) || (user.pats.len() >= limit && live < limit));
+    if uncertain {
+        h.stats.probe("create_pat_outcome_depends_on_expired_token");
+    } else if expect_ok && result.is_err() {
         h.violate("C06", "valid_command_fails", "create_pat", format!("valid create_personal_access_token failed: {:?}", result.as_ref().err()));
     } else if !expect_ok && result.is_ok() {
         h.violate("C06", "invalid_command_refused", "create_pat", format!("invalid create_personal_access_token {name} accepted (taken={taken})"));
@@ -736,6 +746,12 @@ async fn delete_pat(h: &mut Harness, c: usize, name: &str) {
     let uid = h.model.sessions[c].user;
     let Some(user) = h.model.users.get_mut(&uid) else { return };
     let had = user.pats.contains_key(name);
+    let now = h.sim.now_micros();
+    if had && result.is_err() && user.pats[name].expiry_at.map(|e| e <= now + 1_000_000).unwrap_or(false) {
+        // past its expiry: the cleaner or a restart may already have dropped it
+        user.pats.remove(name);
+        return;
+    }
     match (&result, had) {
         (Ok(()), true) => {
             user.pats.remove(name);
